@@ -403,6 +403,11 @@ def gen_pairs(rng, families, n):
             out.append(("g4", a, b))
         else:
             a, b = gen.FAMILIES[fam](rng)
+            # operands may list a vertex several times in a row (valid input, see C03 / C07)
+            if rng.random() < 0.12:
+                a = [[gen.repeat_vertices(rng, r) for r in p] for p in a]
+            if rng.random() < 0.12:
+                b = [[gen.repeat_vertices(rng, r) for r in p] for p in b]
             out.append((fam, a, b))
     return out
 
@@ -426,7 +431,7 @@ def structural_pairs():
 def build_cases(prop, tier, rng):
     """returns list of (label, [Case], dbg)"""
     q = tier == "quick"
-    fams_all = ["g1", "g2", "g3", "g4", "g1", "g2", "g10"]
+    fams_all = ["g1", "g2", "g3", "g4", "g1", "g2", "g10", "g11"]
     out = []
     if prop in ("C01", "C02", "C04"):
         n = 240 if q else 6000
